@@ -71,7 +71,7 @@ Print Assumptions C16_update_reparses_file.
 
 Theorem C16_cmp_records_only_when : forall upd envsubst neg args st,
   neg = true \/ envsubst = true \/ upd = false
-  \/ (forall n1 n2, args = [n1; n2] -> assoc_get (s_files st) (mkabs st n2) = None) ->
+  \/ (forall n1 n2, args = [n1; n2] -> assoc_get (s_files st) (clean (mkabs st n2)) = None) ->
   s_updates (outcome_state (cmd_cmp upd envsubst neg args st)) = s_updates st.
 Proof. exact cmp_records_only_when. Qed.
 Print Assumptions C16_cmp_records_only_when.
@@ -80,7 +80,7 @@ Theorem C16_cmp_differs_fails : forall (upd envsubst : bool) args st n1 n2 t1 da
   args = [n1; n2] -> bytes_eqb n1 n2 = false ->
   ts_read st n1 = Some t1 -> read_file (s_fs st) (mkabs st n2) = Some data ->
   bytes_eqb t1 (if envsubst then expand (s_env st) data else data) = false ->
-  envsubst = true \/ upd = false \/ assoc_get (s_files st) (mkabs st n2) = None ->
+  envsubst = true \/ upd = false \/ assoc_get (s_files st) (clean (mkabs st n2)) = None ->
   cmd_cmp upd envsubst false args st = Failed st.
 Proof. exact cmp_differs_fails. Qed.
 Print Assumptions C16_cmp_differs_fails.
@@ -88,7 +88,7 @@ Print Assumptions C16_cmp_differs_fails.
 Theorem C16_update_mode_passes : forall st n1 n2 t1 t2 entry,
   bytes_eqb n1 n2 = false ->
   ts_read st n1 = Some t1 -> read_file (s_fs st) (mkabs st n2) = Some t2 ->
-  assoc_get (s_files st) (mkabs st n2) = Some entry ->
+  assoc_get (s_files st) (clean (mkabs st n2)) = Some entry ->
   cmd_cmp true false false [n1; n2] st
   = Done (if bytes_eqb t1 t2 then st else set_updates st (assoc_set (s_updates st) entry t1)).
 Proof. exact update_mode_passes. Qed.
@@ -203,11 +203,11 @@ Theorem C16_update_keeps_untouched_bytes_refuted : ~ update_keeps_untouched_byte
 Proof. exact update_keeps_untouched_bytes_refuted. Qed.
 Print Assumptions C16_update_keeps_untouched_bytes_refuted.
 
-(* scriptFiles: filled by setup with (expanded location inside the work directory -> entry name as
+(* scriptFiles: filled by setup with (expanded location inside the work directory, cleaned -> entry name as
    the archive spells it), never changed by a script line -- not by mv, cp, rm or symlink either *)
 Theorem C16_registered_at_expanded_location : forall cfg work env a p e,
   assoc_get (s_files (fst (setup cfg work env a))) p = Some e ->
-  In e (map fst (files a)) /\ p = location work env e /\ beneath work p = true.
+  In e (map fst (files a)) /\ p = clean (location work env e) /\ beneath work (location work env e) = true.
 Proof. exact setup_files_ok. Qed.
 Print Assumptions C16_registered_at_expanded_location.
 
@@ -235,7 +235,7 @@ Theorem C16_only_entries_updated : forall cfg work env a e c,
   assoc_get (s_updates (r_final (run_archive cfg work env a))) e = Some c ->
   In e (map fst (files a))
   /\ exists p, assoc_get (s_files (fst (setup cfg work env a))) p = Some e
-               /\ p = location work env e /\ beneath work p = true.
+               /\ p = clean (location work env e) /\ beneath work (location work env e) = true.
 Proof. exact only_entries_updated. Qed.
 Print Assumptions C16_only_entries_updated.
 
